@@ -18,6 +18,13 @@ universally quantified over them:
     g    an arbitrary element of the INPUT list, named by its position in the input (the tracked element),
     d    an arbitrary slot number (used separately for every vector).
 
+Vectors of doubles (the per-sample weights, std::vector<scalar_t> temporaries derived from them) are modelled ELEMENT-WISE
+as V(id, 'Rvec') with wp.rvecs[id] = (size term, fn: index term -> Real term): the caller's weights are the uninterpreted
+function wval, std::transform / construction / copies compose fn with the symbolically executed element operation
+(doubles as reals).  std::discrete_distribution(first, last) then carries the obligations that come from "weighted
+sampling never returns an index of zero weight": one probability per sample, weight 0 => probability 0, probabilities
+non-negative with a positive one.
+
 Eigen's / tensor_t's own (NDEBUG-compiled-out) assertions are obligations of the call sites:
     segment(begin, len): 0 <= begin, 0 <= len, begin + len <= size     dst = src: dst.size == src.size
     slice(begin, end):   0 <= begin <= end <= size                      t(i): 0 <= i < size        make_udist: min <= max
@@ -36,6 +43,7 @@ MAP_T = r'^(const )?Eigen::Map<Eigen::Matrix<long, -1, 1, 0.*>, 0.*>$'
 RNG_T = r'nano::rng_t|std::linear_congruential_engine'
 UDIST_T = r'std::uniform_int_distribution<long>|udist_t<int64_t>'
 WDIST_T = r'std::discrete_distribution<long>|std::discrete_distribution<tensor_size_t>'
+RVEC_T = r'^std::vector<(double|scalar_t|nano::scalar_t)(, std::allocator<double>)?>$'
 SPLITS_T = r'splits_t|std::vector<std::pair<nano::tensor_t<nano::tensor_vector_storage_t, long, 1>'
 FIELDS = [('size', 'Int'), ('cnt', 'Int'), ('gpos', 'Int'), ('wr', 'Int'), ('full', 'Bool'), ('memb', 'Bool'),
           ('poswt', 'Bool'), ('sorted', 'Bool'), ('slo', 'Int'), ('shi', 'Int')]
@@ -73,6 +81,7 @@ class IxWP(nvwp.WP):
         self.seed_param = None        # name of the parameter every rng must be seeded from (splitters)
         self.prov = {}                # value term -> (input position term, weight-positive term): elements read from the input
         self.weights = None
+        self.rvecs = {}               # real vector id -> (size term, fn(index term) -> Real term)
         self.ntmp = 0
 
     # -- abstract vectors
@@ -111,6 +120,62 @@ class IxWP(nvwp.WP):
         self.ntmp += 1
         return f'tmp{self.ntmp}'
 
+    # -- element-wise real vectors
+    def input_weights(self, name, size):
+        """the caller's per-sample weights: weight of sample k is (wval k); library precondition assert(weights.min() >= 0)
+        is instantiated wherever a weight is looked at"""
+        self.decls.append('(declare-fun wval (Int) Real)')
+        self.weights = name
+        self.env[name] = V(name, 'Rvec')
+        self.rvecs[name] = (size, lambda k: f'(wval {k})')
+
+    def rvec(self, node):
+        n = look(node)
+        if n.get('kind') == 'CXXConstructExpr' and len(n.get('inner', [])) == 1:
+            n = look(n['inner'][0])           # by-value copy of a weight map
+        if n.get('kind') == 'DeclRefExpr':
+            v = self.env.get(n['referencedDecl']['name'])
+            if v is not None and v.s == 'Rvec':
+                return v.t
+        raise Unsupported(f'{self.name}: expression of kind {n.get("kind")} does not denote a modelled vector of doubles')
+
+    def wrange(self, what, b, e, n):
+        """[b, e) over a real vector as (id, begin offset, end offset)"""
+        if b.s != 'WPtr' or e.s != 'WPtr' or b.c[0] != e.c[0]:
+            self.oblige(f'{what}: first and last are iterators of the same vector of doubles', 'false', n)
+            return None
+        a = b.c[0]
+        self.oblige(f'{what}: valid range 0 <= first <= last <= size',
+                    f'(and (<= 0 {b.c[1]}) (<= {b.c[1]} {e.c[1]}) (<= {e.c[1]} {self.rvecs[a][0]}))', n)
+        return a, b.c[1], e.c[1]
+
+    def apply_lambda(self, lam, argvals):
+        """symbolic execution of a single-return lambda in the caller's environment (by-reference captures are the
+        caller's variables), its parameters bound to argvals"""
+        lam = look(lam)
+        if lam.get('kind') != 'LambdaExpr':
+            raise Unsupported('callable argument is not a lambda')
+        ops = [m for m in astload.walk(lam) if m.get('kind') == 'CXXMethodDecl' and m.get('name') == 'operator()']
+        params = [c for c in ops[0]['inner'] if c.get('kind') == 'ParmVarDecl']
+        body = [c for c in ops[0]['inner'] if c.get('kind') == 'CompoundStmt'][0]
+        stmts = body.get('inner', [])
+        if len(stmts) != 1 or stmts[0].get('kind') != 'ReturnStmt' or len(params) != len(argvals):
+            raise Unsupported('lambda is not a single return statement over the expected parameters')
+        saved = {}
+        for q, v in zip(params, argvals):
+            nm = q.get('name')
+            saved[nm] = self.env.get(nm)
+            self.env[nm] = v
+        try:
+            r = self.ev(stmts[0]['inner'][0])
+        finally:
+            for nm, old in saved.items():
+                if old is None:
+                    self.env.pop(nm, None)
+                else:
+                    self.env[nm] = old
+        return r
+
     def arr(self, node):
         n = look(node)
         if n.get('kind') == 'CallExpr' and look(n['inner'][0]).get('referencedDecl', {}).get('name') == 'move':
@@ -138,6 +203,13 @@ class IxWP(nvwp.WP):
             b = self.ptr(n['inner'][0])
             k = self.ev(n['inner'][1])
             return V(b.t, b.s, (b.c[0], f'({n["opcode"]} {b.c[1]} {k.t})'))
+        if n.get('kind') == 'CXXOperatorCallExpr' and len(n.get('inner', [])) == 3 and \
+                look(n['inner'][0]).get('referencedDecl', {}).get('name') in ('operator+', 'operator-') and \
+                self.base(n['inner'][2]['type']) in nvwp.INT_RANGES:
+            op = look(n['inner'][0])['referencedDecl']['name'][-1]      # class-type iterator +/- integer
+            b = self.ptr(n['inner'][1])
+            k = self.ev(n['inner'][2])
+            return V(b.t, b.s, (b.c[0], f'({op} {b.c[1]} {k.t})'))
         if n.get('kind') in ('CallExpr', 'CXXMemberCallExpr'):
             v = self.ev(n)
             if v.s in ('Ptr', 'WPtr'):
@@ -239,16 +311,44 @@ def decl_hook(wp, v, init):
             raise Unsupported('uniform_int_distribution not built by make_udist')
         wp.env[name] = val
         return True
+    if tmatch(RVEC_T, t):
+        # std::vector<double> v(size) / v(size, value) / v(first, last) / v(other)
+        c = look(init[0]) if init else None
+        while c is not None and c.get('kind') in ('CXXConstructExpr', 'CXXTemporaryObjectExpr') and len(c.get('inner', [])) == 1 \
+                and tmatch(RVEC_T, look(c['inner'][0]).get('type', {})):
+            c = look(c['inner'][0])
+        if c is None or c.get('kind') not in ('CXXConstructExpr', 'CXXTemporaryObjectExpr', 'DeclRefExpr'):
+            raise Unsupported('std::vector<double> initialised from an unmodelled expression')
+        if c.get('kind') == 'DeclRefExpr':
+            src = wp.rvec(c)
+            wp.rvecs[name] = wp.rvecs[src]
+        else:
+            a = [x for x in c.get('inner', []) if x.get('kind') != 'CXXDefaultArgExpr']
+            if len(a) == 2 and '*' in qual(look(a[0]).get('type', {})) + qual(a[0].get('type', {})) or \
+                    (len(a) == 2 and 'iterator' in qual(a[0].get('type', {}))):
+                r = wp.wrange('std::vector<double>(first, last)', wp.ptr(a[0]), wp.ptr(a[1]), v)
+                if r is None:
+                    raise Unsupported('std::vector<double>(first, last) over different vectors')
+                src, lo, hi = r
+                f0 = wp.rvecs[src][1]
+                wp.rvecs[name] = (f'(- {hi} {lo})', lambda k, f0=f0, lo=lo: f0(f'(+ {k} {lo})'))
+            elif len(a) in (1, 2):
+                sz = wp.ev(a[0])
+                if sz.s != 'Int':
+                    raise Unsupported('std::vector<double>(size): size is not an integer')
+                val = wp.conv(wp.ev(a[1]), 'Real', 'double').t if len(a) == 2 else '0.0'
+                wp.rvecs[name] = (sz.t, lambda k, val=val: val)
+            elif not a:
+                wp.rvecs[name] = ('0', lambda k: '0.0')
+            else:
+                raise Unsupported('std::vector<double> constructor with unexpected arguments')
+        wp.env[name] = V(name, 'Rvec')
+        return True
     if tmatch(WDIST_T, t):
         c = look(init[0])
         if c.get('kind') not in ('CXXConstructExpr', 'CXXTemporaryObjectExpr') or len(c.get('inner', [])) != 2:
             raise Unsupported('discrete_distribution not built from an iterator range')
-        b, e = wp.ptr(c['inner'][0]), wp.ptr(c['inner'][1])
-        if b.s != 'WPtr' or e.s != 'WPtr':
-            raise Unsupported('discrete_distribution over something else than the weights')
-        wp.oblige('std::discrete_distribution(first, last): the range is the whole weight vector',
-                  f'(and (= {b.c[1]} 0) (= {e.c[1]} {wp.env["weights.size"].t}))', v)
-        wp.env[name] = V(name, 'Wdist', (wp.env['weights.size'].t,))
+        wp.env[name] = make_wdist(wp, name, wp.ptr(c['inner'][0]), wp.ptr(c['inner'][1]), v)
         return True
     return False
 
@@ -273,8 +373,8 @@ def h_size(wp, n, args, obj):
         return V(wp.f(v.t, 'size'), 'Int', 'long')
     if v is not None and v.s == 'View':
         return V(v.c[2], 'Int', 'long')
-    if v is not None and v.s == 'Weights':
-        return V(wp.env['weights.size'].t, 'Int', 'long')
+    if v is not None and v.s == 'Rvec':
+        return V(wp.rvecs[v.t][0], 'Int', 'long')
     raise Unsupported('size() of an unmodelled object')
 
 
@@ -325,8 +425,8 @@ def h_assign(wp, n, args, callee):
 def h_begin(wp, n, args, callee):
     o = look(args[0])
     v = wp.ev(o) if o.get('kind') == 'DeclRefExpr' else None
-    if v is not None and v.s == 'Weights':
-        return V('weights', 'WPtr', ('weights', '0'))
+    if v is not None and v.s == 'Rvec':
+        return V(v.t, 'WPtr', (v.t, '0'))
     a, off, ln = wp.view(args[0]).c
     return V(a, 'Ptr', (a, off))
 
@@ -334,8 +434,8 @@ def h_begin(wp, n, args, callee):
 def h_end(wp, n, args, callee):
     o = look(args[0])
     v = wp.ev(o) if o.get('kind') == 'DeclRefExpr' else None
-    if v is not None and v.s == 'Weights':
-        return V('weights', 'WPtr', ('weights', wp.env['weights.size'].t))
+    if v is not None and v.s == 'Rvec':
+        return V(v.t, 'WPtr', (v.t, wp.rvecs[v.t][0]))
     a, off, ln = wp.view(args[0]).c
     return V(a, 'Ptr', (a, f'(+ {off} {ln})'))
 
@@ -391,7 +491,9 @@ def h_draw(wp, n, args, callee):
         wp.assume(f'(and (<= {d.c[0]} {k.t}) (<= {k.t} {d.c[1]}))')
         return k
     if d.s == 'Wdist':
-        wp.assume(f'(and (<= 0 {k.t}) (< {k.t} {d.c[0]}) (wpos {k.t}))')
+        # index k of the distribution is drawn only if its probability is positive (STL); the caller's weights are >= 0
+        ln, prob = d.c
+        wp.assume(f'(and (<= 0 {k.t}) (< {k.t} {ln}) (> {prob(k.t)} 0.0) (>= (wval {k.t}) 0.0))')
         return k
     raise Unsupported('operator() of an unmodelled distribution')
 
@@ -414,15 +516,7 @@ def h_generate(wp, n, args, callee):
     by-reference captures) is executed symbolically once, in the caller's environment, for an arbitrary rng state: what
     holds for this one call holds for every call."""
     r = wp.range_of('std::generate', wp.ptr(args[0]), wp.ptr(args[1]), n)
-    lam = look(args[2])
-    if lam.get('kind') != 'LambdaExpr':
-        raise Unsupported('std::generate with something else than a lambda')
-    ops = [m for m in astload.walk(lam) if m.get('kind') == 'CXXMethodDecl' and m.get('name') == 'operator()']
-    body = [c for c in ops[0]['inner'] if c.get('kind') == 'CompoundStmt'][0]
-    stmts = body.get('inner', [])
-    if len(stmts) != 1 or stmts[0].get('kind') != 'ReturnStmt':
-        raise Unsupported('generator lambda is not a single return statement')
-    v = wp.ev(stmts[0]['inner'][0])
+    v = wp.apply_lambda(args[2], [])
     k = wp.prov.get(v.t)
     wp.oblige('the generator returns an element of the input list', 'true' if k is not None else 'false', n)
     if r is None:
@@ -434,7 +528,7 @@ def h_generate(wp, n, args, callee):
         return V('0', 'Int', 'int')
     c = wp.fresh('Int', 'cnt_generated')
     wp.assume(f'(>= {c.t} 0)')
-    wp.setf(a, cnt=c.t, poswt=AND(wp.f(a, 'poswt'), f'(wpos {k})') if wp.weights else 'false')
+    wp.setf(a, cnt=c.t, poswt=AND(wp.f(a, 'poswt'), f'(> (wval {k}) 0.0)') if wp.weights else 'false')
     fill(wp, a, lo, hi)
     return V('0', 'Int', 'int')
 
@@ -471,7 +565,114 @@ def h_emplace_back(wp, n, args, obj):
     return V('0', 'Int', 'int')
 
 
-CALLS = [(r'^operator=\|Eigen::', h_assign), (r'^begin\|', h_begin), (r'^end\|', h_end), (r'^shuffle\|', h_shuffle),
+def make_wdist(wp, name, b, e, node):
+    """std::discrete_distribution<long>(first, last): index k is drawn with probability first[k] / sum.  From the property
+    (samples(k) is returned when k is drawn; an index of zero weight must never be returned) the probabilities must be the
+    caller's weights up to a zero-preserving map: stated at the ghost sample z (arbitrary)"""
+    r = wp.wrange('std::discrete_distribution(first, last)', b, e, node)
+    if r is None:
+        raise Unsupported('discrete_distribution over different vectors')
+    a, lo, hi = r
+    size, fn = wp.rvecs[a]
+    n = wp.f(wp.input, 'size')
+    prob = lambda k, fn=fn, lo=lo: fn(f'(+ {lo} {k})')
+    z = wp.fresh('Int', 'z').t
+    wp.assume(f'(>= (wval {z}) 0.0)')           # the library's assert(weights.min() >= 0.0), at z
+    wp.oblige('std::discrete_distribution has exactly one probability per sample (index k <-> samples(k))', f'(= (- {hi} {lo}) {n})', node)
+    wp.oblige('std::discrete_distribution is built from the given weights: weight 0 => probability 0 (a zero-weight index is never drawn)',
+              f'(=> (and {inr(z, 0, n)} (= (wval {z}) 0.0)) (= {prob(z)} 0.0))', node)
+    wp.oblige('std::discrete_distribution: probabilities are non-negative', f'(=> {inr(z, 0, n)} (>= {prob(z)} 0.0))', node)
+    wp.oblige('std::discrete_distribution: some probability is positive (a sample of positive weight keeps a positive probability)',
+              f'(> {prob("gw")} 0.0)', node)
+    return V(name, 'Wdist', (f'(- {hi} {lo})', prob))
+
+
+def h_transform(wp, n, args, callee):
+    """std::transform(first, last, d_first, op): d_first[i] = op(first[i]) for i < last - first (element-wise, assumed);
+    the destination must have room"""
+    if len(args) != 4:
+        raise Unsupported('binary std::transform')
+    r = wp.wrange('std::transform', wp.ptr(args[0]), wp.ptr(args[1]), n)
+    d = wp.ptr(args[2])
+    if r is None or d.s != 'WPtr':
+        raise Unsupported('std::transform over something else than vectors of doubles')
+    src, lo, hi = r
+    da, doff = d.c
+    dsize, dfn = wp.rvecs[da]
+    sfn = wp.rvecs[src][1]
+    wp.oblige('std::transform: the destination has room for last - first elements',
+              f'(and (<= 0 {doff}) (<= (+ {doff} (- {hi} {lo})) {dsize}))', n)
+    x = wp.fresh('Real', 'elem', 'double')      # one symbolic element stands for every element
+    y = wp.apply_lambda(args[3], [x])
+    if y.s != 'Real':
+        y = wp.conv(y, 'Real', 'double')
+    yt, xt = y.t, x.t
+
+    def fn(k, dfn=dfn, sfn=sfn, lo=lo, hi=hi, doff=doff, yt=yt, xt=xt):
+        srcv = sfn(f'(+ {lo} (- {k} {doff}))')
+        return f'(ite {inr(k, doff, f"(+ {doff} (- {hi} {lo}))")} (let (({xt} {srcv})) {yt}) {dfn(k)})'
+    wp.rvecs[da] = (dsize, fn)
+    return V(da, 'WPtr', (da, f'(+ {doff} (- {hi} {lo}))'))
+
+
+def h_rmax(wp, n, args, callee):
+    a, b = wp.conv(wp.ev(args[0]), 'Real', 'double'), wp.conv(wp.ev(args[1]), 'Real', 'double')
+    return V(f'(rmax {a.t} {b.t})', 'Real', 'double')
+
+
+def h_rmin(wp, n, args, callee):
+    a, b = wp.conv(wp.ev(args[0]), 'Real', 'double'), wp.conv(wp.ev(args[1]), 'Real', 'double')
+    return V(f'(rmin {a.t} {b.t})', 'Real', 'double')
+
+
+def h_rabs(wp, n, args, callee):
+    return V(f'(rabs {wp.conv(wp.ev(args[0]), "Real", "double").t})', 'Real', 'double')
+
+
+def h_epsilon(wp, n, args, callee):
+    """nano::epsilon / epsilon0..3<double>(): small positive constants (assumed: > 0)"""
+    nm = 'c_' + look(n['inner'][0]).get('referencedDecl', {}).get('name', 'epsilon')
+    if f'(declare-const {nm} Real)' not in wp.decls:
+        wp.decls.append(f'(declare-const {nm} Real)')
+        wp.assume(f'(> {nm} 0.0)')
+    return V(nm, 'Real', 'double')
+
+
+def h_sample(wp, n, args, callee):
+    """std::sample(first, last, out, n, rng) for forward iterators: copies min(n, last - first) distinct elements of
+    [first, last) to out, in the order they have in the input (selection sampling is stable); NOTHING else about order"""
+    r = wp.range_of('std::sample', wp.ptr(args[0]), wp.ptr(args[1]), n)
+    out = wp.ptr(args[2])
+    cnt = wp.ev(args[3])
+    wp.rng(args[4])
+    if r is None or out.s != 'Ptr':
+        raise Unsupported('std::sample over something else than index vectors')
+    a, lo, hi = r
+    b, doff = out.c
+    if a == b:
+        raise Unsupported('std::sample into its own input')
+    wp.oblige('std::sample: n >= 0', f'(>= {cnt.t} 0)', n)
+    m = f'(imin {cnt.t} (- {hi} {lo}))'
+    wp.oblige('std::sample: the output range has room for min(n, last - first) elements',
+              f'(and (<= 0 {doff}) (<= (+ {doff} {m}) {wp.f(b, "size")}))', n)
+    wp.oblige('std::sample reads initialised elements only', wp.f(a, 'full'), n)
+    wp.oblige('the tracked element occurs at most once in the sampled vector', f'(<= {wp.f(a, "cnt")} 1)', n)
+    present = AND(f'(= {wp.f(a, "cnt")} 1)', inr(wp.f(a, 'gpos'), lo, hi))
+    c = wp.fresh('Int', 'selected')           # is the tracked element among the selected ones: at most once
+    p = wp.fresh('Int', 'selected_pos')
+    wp.assume(f'(and (<= 0 {c.t}) (<= {c.t} (ite {present} 1 0)) (=> (= {m} (- {hi} {lo})) (= {c.t} (ite {present} 1 0))))')
+    wp.assume(f'(=> (= {c.t} 1) {inr(p.t, doff, f"(+ {doff} {m})")})')
+    wp.setf(b, cnt=f'(+ {wp.f(b, "cnt")} {c.t})', gpos=f'(ite (= {c.t} 1) {p.t} {wp.f(b, "gpos")})',
+            memb=AND(wp.f(b, 'memb'), wp.f(a, 'memb')), poswt=AND(wp.f(b, 'poswt'), wp.f(a, 'poswt')))
+    fill(wp, b, doff, f'(+ {doff} {m})')
+    # input order is kept: the output is ascending only where the input range was
+    wp.setf(b, sorted=AND(wp.f(a, 'sorted'), f'(<= {wp.f(a, "slo")} {lo})', f'(<= {hi} {wp.f(a, "shi")})'), slo=doff, shi=f'(+ {doff} {m})')
+    return V(b, 'Ptr', (b, f'(+ {doff} {m})'))
+
+
+CALLS = [(r'^operator=\|Eigen::', h_assign), (r'^transform\|', h_transform), (r'^sample\|', h_sample),
+         (r'^max\|const double &', h_rmax), (r'^min\|const double &', h_rmin), (r'^(fabs|abs)\|double', h_rabs),
+         (r'^epsilon[0-3]?\|double \(\)', h_epsilon), (r'^begin\|', h_begin), (r'^end\|', h_end), (r'^shuffle\|', h_shuffle),
          (r'^sort\|void \(long \*, long \*\)', h_sort), (r'^make_udist\|', h_make_udist), (r'^generate\|', h_generate),
          (r'^operator\(\)\|.*\|std::(uniform_int|discrete)_distribution<long>', h_draw),
          (r'^operator\(\)\|.*\|nano::tensor_t<nano::tensor_carray_storage_t, long, 1>', h_at)]
